@@ -1346,9 +1346,17 @@ class DocTest:
                             new_line = ','.join(tbparts)
 
                             # failed_ctx = '>>> ' + self.failed_part.exec_lines[tb_lineno - 1]
-                            failed_ctx = self.failed_part.orig_lines[tb_lineno - 1]
-                            extra = '    ' + failed_ctx
-                            line = (new_line + extra + '\n')
+                            orig_lines = self.failed_part.orig_lines
+                            if 0 < tb_lineno <= len(orig_lines):
+                                failed_ctx = orig_lines[tb_lineno - 1]
+                                extra = '    ' + failed_ctx
+                                line = (new_line + extra + '\n')
+                            else:
+                                # The frame belongs to code defined by an
+                                # earlier part of the doctest (e.g. a helper
+                                # function) so the failing part does not
+                                # contain the context line.
+                                line = new_line
 
                         # m = '(t{})'.format(i)
                         # line = m + line.replace('\n', '\n' + m)
